@@ -513,6 +513,32 @@ def run(ck):
             rv = [c for c in H.calls_in(lp['body']) if H.is_call_to(c, 'typedexpr::walk_rvalue')]
             ck.ob('R1.10', 'initializer-sees-the-outer-scope', bool(rv) and all(H.source_before(c, inside[0]) for c in rv), L.loc(inside[0]), 'the initializer is walked before its own name is inserted')
 
+        # block-like statements walk their children in a scope of their own (a clone of the scope they are in): what they declare ends with
+        # them. Block and switch are the two statements of the subset that have a body with a scope (the branches of `if` are walked as
+        # statements, i.e. through Block if they are braced).
+        if scope is not None:
+            for tag in ('Statement::Block', 'Statement::Switch'):
+                a2 = next((a for n in walk(ws['body']) if n.get('k') == 'Match' for a in n['arms'] if tag in pp(a['pat'])), None)
+                if a2 is None:
+                    ck.ob('R1.10', 'body-has-its-own-scope|%s' % tag.split('::')[-1], False, '', 'arm for %s not found in walk_stmt' % tag)
+                    continue
+                kids = [c for c in H.calls_in(a2['body']) if H.is_call_to(c, 'typedexpr::walk_stmt_nodes') or (H.is_call_to(c, 'typedexpr::walk_stmt') and c is not None)]
+                bad = []
+                for c in kids:
+                    arg = next((x for x in c['args'] if 'HashMap<std::string::String' in (L.ty(x, adjusted=True) or L.ty(x) or '')), None)
+                    rl = H.root_local(arg) if arg is not None else None
+                    if rl is None or rl.get('hid') == scope['bind']['hid']:
+                        bad.append(L.loc(c))
+                        continue
+                    b2 = bs.get(rl.get('hid'))
+                    init = H.strip_refs(b2['node']['init']) if b2 and b2['kind'] == 'let' and b2['node'].get('init') is not None else {}
+                    if not (init.get('k') == 'MCall' and init.get('m') == 'clone' and (H.root_local(init['recv']) or {}).get('hid') == scope['bind']['hid']):
+                        bad.append(L.loc(c))
+                ck.ob('R1.10', 'body-has-its-own-scope|%s' % tag.split('::')[-1], bool(kids) and not bad, L.loc(a2),
+                      'the statements inside are walked with `let mut locals = locals.clone()`: their declarations end with the statement' if kids and not bad else
+                      'the statements inside a %s are walked in the scope of the statement itself (%s): a `let` declared there stays visible afterwards and shadows an outer variable of '
+                      'the same name — which is then read where it was never assigned' % (tag.split('::')[-1].lower(), bad or 'no child walk found'), fn=ws['path'])
+
     # ---- R1.11 default clause position ------------------------------------------------------------------------------------------------
     sw = next((f for f in L.fn_list if f['path'].endswith('qmlast::stmt::SwitchStatement::with_cursor')), None)
     if sw is None:
